@@ -269,7 +269,8 @@ impl<'u, 'de> serde::Deserializer<'de> for &'u mut URLEncodedDeserializer<'de> {
 
     fn deserialize_bool<V>(self, visitor: V) -> Result<V::Value, Self::Error>
     where V: serde::de::Visitor<'de> {
-        match self.next_section()? {
+        /* numbers and bools are percent-decoded just as other values ( `%37` is `7` ) */
+        match &*percent_decode(self.next_section()?) {
             b"true"  => visitor.visit_bool(true),
             b"false" => visitor.visit_bool(false),
             other   => Err(serde::de::Error::custom(format!(
@@ -282,7 +283,7 @@ impl<'u, 'de> serde::Deserializer<'de> for &'u mut URLEncodedDeserializer<'de> {
     fn deserialize_f32<V>(self, visitor: V) -> Result<V::Value, Self::Error>
     where V: serde::de::Visitor<'de> {
         let section = self.next_section()?;
-        let section = std::str::from_utf8(section)
+        let section = percent_decode_utf8(section)
             .map_err(|_| serde::de::Error::custom(
                 format!("Expected a number, but got `{}`", section.escape_ascii())
             ))?;
@@ -295,7 +296,7 @@ impl<'u, 'de> serde::Deserializer<'de> for &'u mut URLEncodedDeserializer<'de> {
     fn deserialize_f64<V>(self, visitor: V) -> Result<V::Value, Self::Error>
     where V: serde::de::Visitor<'de> {
         let section = self.next_section()?;
-        let section = std::str::from_utf8(section)
+        let section = percent_decode_utf8(section)
             .map_err(|_| serde::de::Error::custom(
                 format!("Expected a number, but got `{}`", section.escape_ascii())
             ))?;
@@ -309,7 +310,7 @@ impl<'u, 'de> serde::Deserializer<'de> for &'u mut URLEncodedDeserializer<'de> {
     fn deserialize_i8<V>(self, visitor: V) -> Result<V::Value, Self::Error>
     where V: serde::de::Visitor<'de> {
         let section = self.next_section()?;
-        let section = std::str::from_utf8(section)
+        let section = percent_decode_utf8(section)
             .map_err(|_| serde::de::Error::custom(
                 format!("Expected an integer, but got `{}`", section.escape_ascii())
             ))?;
@@ -322,7 +323,7 @@ impl<'u, 'de> serde::Deserializer<'de> for &'u mut URLEncodedDeserializer<'de> {
     fn deserialize_i16<V>(self, visitor: V) -> Result<V::Value, Self::Error>
     where V: serde::de::Visitor<'de> {
         let section = self.next_section()?;
-        let section = std::str::from_utf8(section)
+        let section = percent_decode_utf8(section)
             .map_err(|_| serde::de::Error::custom(
                 format!("Expected an integer, but got `{}`", section.escape_ascii())
             ))?;
@@ -335,7 +336,7 @@ impl<'u, 'de> serde::Deserializer<'de> for &'u mut URLEncodedDeserializer<'de> {
     fn deserialize_i32<V>(self, visitor: V) -> Result<V::Value, Self::Error>
     where V: serde::de::Visitor<'de> {
         let section = self.next_section()?;
-        let section = std::str::from_utf8(section)
+        let section = percent_decode_utf8(section)
             .map_err(|_| serde::de::Error::custom(
                 format!("Expected an integer, but got `{}`", section.escape_ascii())
             ))?;
@@ -348,7 +349,7 @@ impl<'u, 'de> serde::Deserializer<'de> for &'u mut URLEncodedDeserializer<'de> {
     fn deserialize_i64<V>(self, visitor: V) -> Result<V::Value, Self::Error>
     where V: serde::de::Visitor<'de> {
         let section = self.next_section()?;
-        let section = std::str::from_utf8(section)
+        let section = percent_decode_utf8(section)
             .map_err(|_| serde::de::Error::custom(
                 format!("Expected an integer, but got `{}`", section.escape_ascii())
             ))?;
@@ -362,7 +363,7 @@ impl<'u, 'de> serde::Deserializer<'de> for &'u mut URLEncodedDeserializer<'de> {
     fn deserialize_u8<V>(self, visitor: V) -> Result<V::Value, Self::Error>
     where V: serde::de::Visitor<'de> {
         let section = self.next_section()?;
-        let section = std::str::from_utf8(section)
+        let section = percent_decode_utf8(section)
             .map_err(|_| serde::de::Error::custom(
                 format!("Expected an integer, but got `{}`", section.escape_ascii())
             ))?;
@@ -375,7 +376,7 @@ impl<'u, 'de> serde::Deserializer<'de> for &'u mut URLEncodedDeserializer<'de> {
     fn deserialize_u16<V>(self, visitor: V) -> Result<V::Value, Self::Error>
     where V: serde::de::Visitor<'de> {
         let section = self.next_section()?;
-        let section = std::str::from_utf8(section)
+        let section = percent_decode_utf8(section)
             .map_err(|_| serde::de::Error::custom(
                 format!("Expected an integer, but got `{}`", section.escape_ascii())
             ))?;
@@ -388,7 +389,7 @@ impl<'u, 'de> serde::Deserializer<'de> for &'u mut URLEncodedDeserializer<'de> {
     fn deserialize_u32<V>(self, visitor: V) -> Result<V::Value, Self::Error>
     where V: serde::de::Visitor<'de> {
         let section = self.next_section()?;
-        let section = std::str::from_utf8(section)
+        let section = percent_decode_utf8(section)
             .map_err(|_| serde::de::Error::custom(
                 format!("Expected an integer, but got `{}`", section.escape_ascii())
             ))?;
@@ -401,7 +402,7 @@ impl<'u, 'de> serde::Deserializer<'de> for &'u mut URLEncodedDeserializer<'de> {
     fn deserialize_u64<V>(self, visitor: V) -> Result<V::Value, Self::Error>
     where V: serde::de::Visitor<'de> {
         let section = self.next_section()?;
-        let section = std::str::from_utf8(section)
+        let section = percent_decode_utf8(section)
             .map_err(|_| serde::de::Error::custom(
                 format!("Expected an integer, but got `{}`", section.escape_ascii())
             ))?;
